@@ -1096,6 +1096,71 @@ func genNames(r *vh.Rng, id int) Case {
 	return c
 }
 
+// believe replays what the harness believes is served after events (last add wins, delete removes).
+func believe(g *gen, evs []Event) {
+	g.served, g.order = map[string]Res{}, nil
+	for _, e := range evs {
+		switch e.Op {
+		case "add":
+			g.setServed(*e.Res)
+		case "del":
+			g.unsetServed(e.Kind, e.NS, e.Name)
+		case "upd_vss", "upd_tss", "add_res", "upd_cfg":
+			for _, x := range e.Adds {
+				g.setServed(x)
+			}
+			k := "vs"
+			if e.Op == "upd_tss" {
+				k = "ts"
+			}
+			for _, d := range e.Dels {
+				g.unsetServed(k, d[0], d[1])
+			}
+		case "bdel_vs":
+			for _, d := range e.Dels {
+				g.unsetServed("vs", d[0], d[1])
+			}
+		case "bdel_ing":
+			for _, d := range e.Dels {
+				g.unsetServed("ing", d[0], d[1])
+			}
+		case "restart":
+			g.served, g.order = map[string]Res{}, nil
+			for _, x := range e.Adds {
+				g.setServed(x)
+			}
+		}
+	}
+}
+
+// genEveryPoint: one base history (no restart) and, for EVERY position of it, the variant with a
+// restart inserted there (cluster changed while down, with or without deletions).
+func genEveryPoint(r *vh.Rng, id *int) []Case {
+	g := &gen{r: r, served: map[string]Res{}}
+	g.universe(false)
+	n := 4 + r.Intn(7)
+	var base []Event
+	for i := 0; i < n; i++ {
+		base = append(base, g.event())
+	}
+	plus := r.Chance(1, 4)
+	var out []Case
+	for p := 0; p <= n; p++ {
+		believe(g, base[:p])
+		dels := r.Bool()
+		class := "everypoint-keep"
+		if dels {
+			class = "everypoint-del"
+		}
+		evs := append([]Event{}, base[:p]...)
+		evs = append(evs, g.restartEvent(dels))
+		evs = append(evs, base[p:]...)
+		out = append(out, Case{Fam: "hist", ID: *id, Class: class, Plus: plus, Events: evs})
+		*id++
+	}
+	return out
+}
+
 func generate(a vh.Args) []Case {
 	root := vh.NewRng(a.Seed)
 	id := 0
@@ -1105,6 +1170,9 @@ func generate(a vh.Args) []Case {
 	for i := 0; i < a.N; i++ {
 		cases = append(cases, genHist(root.Fork(uint64(id)), id))
 		id++
+	}
+	for i := 0; i < a.N/60+2; i++ {
+		cases = append(cases, genEveryPoint(root.Fork(uint64(id)+1<<32), &id)...)
 	}
 	for i := 0; i < a.N/2+20; i++ {
 		cases = append(cases, genNames(root.Fork(uint64(id)), id))
